@@ -6,15 +6,15 @@ EXTENDS ToolProtocol, Json, IOUtils
 Rec == ndJsonDeserialize(IOEnv.TRACE)
 VARIABLES l, bad, cnt
 tvars == <<l, bad, cnt>>
-TInit == l = 1 /\ bad = {} /\ cnt = [calls |-> 0, ok |-> 0, err |-> 0, located |-> 0, located_checked |-> 0]
+TInit == l = 1 /\ bad = {} /\ cnt = [calls |-> 0, ok |-> 0, err |-> 0, slow |-> 0, located |-> 0, located_checked |-> 0]
 TNext ==
   /\ l <= Len(Rec) /\ l' = l + 1
   /\ LET e == Rec[l]
-         crash == e.outcome \notin Outcomes
+         crash == e.outcome \notin Outcomes \cup Inconclusive
          \* a located error names the input, an include file or a built-in pseudo-file, and lies within that text
          badloc == e.outcome = "err" /\ e.located /\ (~e.known_file \/ ~LocWithin(e.line, e.col, e.uline, e.ucol, e.lens))
      IN /\ bad' = IF crash \/ badloc THEN bad \cup {<<l, IF crash THEN "crash" ELSE "location">>} ELSE bad
-        /\ cnt' = [cnt EXCEPT !.calls = @ + 1, !.ok = @ + (IF e.outcome = "ok" THEN 1 ELSE 0), !.err = @ + (IF e.outcome = "err" THEN 1 ELSE 0),
+        /\ cnt' = [cnt EXCEPT !.calls = @ + 1, !.ok = @ + (IF e.outcome = "ok" THEN 1 ELSE 0), !.err = @ + (IF e.outcome = "err" THEN 1 ELSE 0), !.slow = @ + (IF e.outcome \in Inconclusive THEN 1 ELSE 0),
                               !.located = @ + (IF e.located THEN 1 ELSE 0), !.located_checked = @ + (IF e.located /\ e.known_file THEN 1 ELSE 0)]
         /\ UNCHANGED <<pending, log>>
 TSpec == TInit /\ Init /\ [][TNext]_<<tvars, pending, log>>
